@@ -256,3 +256,11 @@ impl fmt::Display for RegionMetadata {
         )
     }
 }
+
+#[cfg(anydb_verif)]
+impl RegionMetadata {
+    /// Verification hook: the on-disk encoding of this entry.
+    pub fn verif_to_bytes(&self) -> Vec<u8> {
+        self.to_bytes().to_vec()
+    }
+}
